@@ -490,3 +490,137 @@ Proof.
   - vm_compute. reflexivity.
   - repeat (constructor; [vm_compute; reflexivity|]). constructor.
 Qed.
+
+(* ------------------------------------------------------------------ read.go querier: external labels round trip *)
+
+Lemma merge_labels_eq p s :
+  merge_labels p s =
+  match p, s with
+  | [], _ => s
+  | _, [] => p
+  | (pn, pv) :: p', (sn, sv) :: s' =>
+      match str_cmp pn sn with
+      | Lt => (pn, pv) :: merge_labels p' s
+      | Gt => (sn, sv) :: merge_labels p s'
+      | Eq => (pn, pv) :: merge_labels p' s'
+      end
+  end.
+Proof. destruct p as [|[pn pv] p']; destruct s as [|[sn sv] s']; reflexivity. Qed.
+
+Definition keeps (names : list str) (p : label) : Prop := str_mem (fst p) names = false /\ snd p <> [].
+
+Lemma strip_keep names l : Forall (keeps names) l -> strip_labels names l = l.
+Proof.
+  unfold strip_labels. induction 1 as [|[n v] l [Hn Hv] Hf IH]; cbn [filter fst snd]; auto.
+  cbn in Hn, Hv. rewrite Hn. destruct v; [congruence|]. cbn [negb andb]. now rewrite IH.
+Qed.
+
+Lemma strip_drop names l : Forall (fun p => str_mem (fst p) names = true) l -> strip_labels names l = [].
+Proof.
+  unfold strip_labels. induction 1 as [|[n v] l Hn Hf IH]; cbn [filter fst snd]; auto.
+  cbn in Hn. now rewrite Hn.
+Qed.
+
+Lemma strip_merge names p : Forall (keeps names) p -> forall s,
+  Forall (fun x => str_mem (fst x) names = true) s ->
+  strip_labels names (merge_labels p s) = p.
+Proof.
+  induction 1 as [|[pn pv] p' [Hn Hv] Hp IHp]; intros s Hs.
+  - rewrite merge_labels_eq. now apply strip_drop.
+  - induction Hs as [|[sn sv] s' Hsn Hs IHs].
+    + rewrite merge_labels_eq. apply strip_keep. constructor; [split|]; auto.
+    + rewrite merge_labels_eq. cbn in Hn, Hv, Hsn. destruct (str_cmp pn sn).
+      * unfold strip_labels at 1. cbn [filter fst snd]. rewrite Hn. destruct pv; [congruence|].
+        cbn [negb andb]. f_equal. now apply IHp.
+      * unfold strip_labels at 1. cbn [filter fst snd]. rewrite Hn. destruct pv; [congruence|].
+        cbn [negb andb]. f_equal. apply IHp. constructor; auto.
+      * unfold strip_labels at 1. cbn [filter fst snd]. rewrite Hsn. cbn [negb andb]. exact IHs.
+Qed.
+
+Lemma str_mem_self n l : In n l -> str_mem n l = true.
+Proof.
+  unfold str_mem. intros H. apply existsb_exists. exists n. split; auto. apply str_eqb_refl.
+Qed.
+
+Lemma ext_names_in (ext : labels) : Forall (fun x => str_mem (fst x) (map fst ext) = true) ext.
+Proof. apply Forall_forall. intros x Hx. apply str_mem_self. now apply in_map. Qed.
+
+Lemma added_names_all (ext : labels) mnames :
+  Forall (fun l => str_mem (fst l) mnames = false) ext -> added_names ext mnames = map fst ext.
+Proof.
+  unfold added_names. induction 1 as [|x ext Hx Hf IH]; cbn; auto. rewrite Hx. cbn. now rewrite IH.
+Qed.
+
+(* stored series: no empty label value, no label named like an external label *)
+Definition storable (ext : labels) (l : labels) : Prop := Forall (keeps (map fst ext)) l.
+
+Lemma strip_with_ext ext ss : Forall (fun s => storable ext (ser_l s)) ss ->
+  strip_series (map fst ext) (map (with_ext ext) ss) = ss.
+Proof.
+  unfold strip_series. induction 1 as [|[l sm] ss Hs Hf IH]; cbn [map]; auto. rewrite IH. f_equal.
+  unfold with_ext. cbn [ser_l ser_s]. f_equal. apply strip_merge; auto. apply ext_names_in.
+Qed.
+
+(* querier of read.go over the sampled response = the direct result *)
+Theorem querier_sampled_id : forall limit maxBytes ext mnames sortSeries mint maxt ss chunks,
+  Forall good_series ss -> limit <= 0 \/ total_samples ss <= limit ->
+  Forall (fun l => str_mem (fst l) mnames = false) ext ->
+  Forall (fun s => storable ext (ser_l s)) ss ->
+  label_sorted (map (with_ext ext) ss) ->
+  querier_path false limit maxBytes ext mnames sortSeries mint maxt ss chunks = Ok ss.
+Proof.
+  intros. unfold querier_path. rewrite sampled_id_sorted by auto.
+  rewrite added_names_all by auto. now rewrite strip_with_ext.
+Qed.
+
+(* ... and over the streamed response, when every series fits one frame *)
+Theorem querier_chunked_id : forall limit maxBytes ext mnames sortSeries mint maxt direct ss,
+  Forall good_cseries ss -> Forall (fits maxBytes ext) ss ->
+  Forall (fun l => str_mem (fst l) mnames = false) ext ->
+  Forall (fun s => storable ext (cs_l s)) ss ->
+  querier_path true limit maxBytes ext mnames sortSeries mint maxt direct ss
+  = Ok (map (fun s => mkSer (cs_l s) (filter (in_range mint maxt) (all_samples (cs_c s)))) ss).
+Proof.
+  intros limit maxBytes ext mnames sortSeries mint maxt direct ss Hg Hf Hm Hs. unfold querier_path.
+  rewrite chunked_id_one_frame by auto. rewrite added_names_all by auto. f_equal.
+  clear Hg Hf. unfold strip_series. induction Hs as [|s ss Hs Hss IH]; cbn [map]; auto. rewrite IH. f_equal.
+  unfold trim_series. cbn [ser_l ser_s]. f_equal. apply strip_merge; auto. apply ext_names_in.
+Qed.
+
+Example querier_example :
+  storable [([122%N], [49%N])] [([97%N], [98%N]); ([99%N], [100%N])] /\
+  querier_path false 0 100 [([122%N], [49%N])] [[97%N]] true 0 100
+     [mkSer [([97%N], [98%N])] [mkS 5 KF 1]] [] = Ok [mkSer [([97%N], [98%N])] [mkS 5 KF 1]].
+Proof. split; [repeat constructor; discriminate|vm_compute; reflexivity]. Qed.
+
+(* ------------------------------------------------------------------ frame budget *)
+
+Lemma total_size_app a b : total_size (a ++ b) = total_size a + total_size b.
+Proof.
+  induction a as [|x a IH]; [change (total_size b = 0 + total_size b); lia|].
+  cbn [app]. rewrite !total_size_cons, IH. lia.
+Qed.
+
+Definition within_budget (md : Z) (f : list chunk) : Prop :=
+  removelast f = [] \/ total_size (removelast f) < md.
+
+Lemma frames_go_budget md rest : forall acc left,
+  left = md - total_size acc -> (acc = [] \/ total_size acc < md) ->
+  Forall (within_budget md) (frames_go md acc left rest).
+Proof.
+  induction rest as [|c rest IH]; intros acc left Hl Hacc; cbn [frames_go]; [constructor|].
+  assert (Hwb : within_budget md (acc ++ [c])).
+  { unfold within_budget. rewrite removelast_last. destruct Hacc; auto. }
+  destruct rest as [|c2 r]; [constructor; auto|].
+  destruct (0 <? left - chunk_size c) eqn:E.
+  - apply IH.
+    + rewrite total_size_app, total_size_cons. change (total_size []) with 0. lia.
+    + right. apply Z.ltb_lt in E. rewrite total_size_app, total_size_cons. change (total_size []) with 0. lia.
+  - constructor; auto. apply IH; [change (total_size []) with 0; lia|auto].
+Qed.
+
+(* every frame holds a single chunk, or its chunks except the last stay below the budget
+   (maxBytesInFrame minus the label sizes): "inaccuracy of at most one chunk" *)
+Theorem frames_budget : forall maxBytes lbls chs,
+  Forall (within_budget (max_data_length maxBytes lbls)) (frames_of maxBytes lbls chs).
+Proof. intros. unfold frames_of. apply frames_go_budget; [change (total_size []) with 0; lia|auto]. Qed.
